@@ -621,6 +621,26 @@ pub fn run(ctx: &Ctx, rep: &mut Report) {
         let kind = kinds[k % kinds.len()];
         k += 1;
         n -= 1;
+        if ctx.mode != "miri" && (k == 4 || (ctx.thorough() && k % 40 == 4)) {
+            // a tiny tree searched to a great depth (bare kings; even one locked pawn pair makes depth 60 take half an
+            // hour): iterations far beyond any fixed ply bound an implementation might assume, ended by the depth
+            // limit alone. One or two workers and a roomy memory (with a table of a few buckets, or many workers,
+            // the same search takes minutes).
+            let p = loop {
+                let mut b = [0i8; 64];
+                let (wk, bk) = (rng.gen_range(0..64usize), rng.gen_range(0..64usize));
+                b[wk] = 6;
+                b[bk] = -6;
+                let q = Pos { b, wtm: rng.gen_bool(0.5), castle: 0, ep: None, half: 0, full: 1 };
+                if wk != bk && q.is_legal_position() && !q.legal_moves().is_empty() {
+                    break q;
+                }
+            };
+            let s = crate::scenario::Step::new(&p.fen(), rng.gen_range(65..=72), if rng.gen_bool(0.3) { 2 } else { 1 }, rng.gen());
+            let sc = crate::scenario::Scenario { tables: 8, buckets: 1024, hasher_seed: rng.gen(), steps: vec![s] };
+            rep.count("cases_deep", 1);
+            sync_scenario(&sc, &ev, ctx, rep);
+        }
         if kind == "sync" {
             // explicit worker counts through the synchronous entry point, Stop by node count
             let p = c03::random_root(&mut rng, &corpus);
